@@ -1,6 +1,6 @@
 """Property -> clauses -> rule instances.  Each check_Cxx fills a Report; it never prints."""
 from .model import AnalysisError
-from .rules import twin, effect, work, feedback, models, misc
+from .rules import twin, effect, work, feedback, models, misc, state
 
 ALG = ['dfa_algorithms', 'nfa_algorithms', 'pda_algorithms', 'tm_algorithms', 'cfg_algorithms', 'regexp_algorithms']
 
@@ -96,6 +96,8 @@ def check_C09(ctx, rep):
     rep.clauses_decided += ['closure worklist records and enqueues each configuration once, limit read at call time, at least `limit` pops allowed (R-WORK W1/W2/W4)']
     rep.not_decided += ['soundness and completeness of the configuration search as a whole']
     _worklists_in(ctx, rep, ['pda_algorithms.pda_epsilon_closure'])
+    if state.check_config_reads(ctx, rep) < 1:
+        raise AnalysisError('no read of a GambaTools setting found')
     _effect_on(ctx, rep, ['pda_algorithms.pda_epsilon_closure', 'pda_algorithms.pda_do_transition', 'pda_algorithms.pda_accepts_word',
                           'pda_algorithms.pda_pop_push', 'pda_algorithms.pda_can_pop_push'], shared=False)
 
@@ -194,13 +196,15 @@ def check_C18(ctx, rep):
     rep.clauses_decided += ['operands untouched (R-EFFECT a)']
     rep.not_decided += ['the language identities themselves']
     _effect_on(ctx, rep, ['nfa_algorithms.nfa_union', 'nfa_algorithms.nfa_concatenation', 'nfa_algorithms.nfa_repetition'], shared=False)
+    state.check_hidden_state(ctx, rep, modules=['nfa_algorithms', 'identifier_generator'])
 
 
 def check_C19(ctx, rep):
     rep.clauses_decided += ['no value-returning operation mutates an operand at any depth (R-EFFECT a)',
                             'no result shares an in-place-mutable field with an argument (R-EFFECT b)',
                             'no hidden insertion through defaultdict reads of partial maps (R-EFFECT c)',
-                            'in-place / pure twin pairing (R-TWIN)']
+                            'in-place / pure twin pairing (R-TWIN)',
+                            'configuration read at call time, flag-guarded code only prints, no cross-call memo feeds a result (R-STATE)']
     rep.not_decided += ['equality of languages across iteration orders where the representation legitimately depends on the order']
     fs = effect.pure_functions(ctx)
     effect.check_no_operand_mutation(ctx, rep, fs)
@@ -208,7 +212,12 @@ def check_C19(ctx, rep):
     effect.check_guarded_reads(ctx, rep, [f for f in _alg_funcs(ctx) if not f.name.endswith('_in_place')])
     for p, i in twin.twin_pairs(ctx):
         twin.check_twin(ctx, rep, p, i)
-    twin.check_no_unconditional_self_call(ctx, rep, [f for f in ctx.prog.functions.values() if ctx.effects.in_scope(f) and not f.module.name.startswith('template:')])
+    lib = [f for f in ctx.prog.functions.values() if ctx.effects.in_scope(f) and not f.module.name.startswith('template:')]
+    twin.check_no_unconditional_self_call(ctx, rep, lib)
+    state.check_config_reads(ctx, rep)
+    if state.check_flag_guarded(ctx, rep, lib) < 5:
+        raise AnalysisError('fewer than 5 logging/verbose-guarded sites found')
+    state.check_hidden_state(ctx, rep)
     rep.extra['effect_rounds'] = ctx.effects.rounds
     rep.extra['calls_resolved'] = sum(s.calls - s.unresolved for s in ctx.effects.summaries.values())
     rep.extra['calls_unresolved'] = sum(s.unresolved for s in ctx.effects.summaries.values())
